@@ -41,3 +41,10 @@ package amounts
 //@   loop 1 invariant fresh(clone) && clone != nil && clone != am
 //@   loop 1 invariant forall k Key :: {key(clone, k)} ((k in clone) <==> $seen[k]) && ($seen[k] ==> clone[k] == am[k])
 //@   loop 1 invariant forall k Key :: {$seen[k]} $seen[k] ==> (k in am)
+//
+//@ func (Amounts).Commodities
+//@   ensures fresh(result) && result != nil
+//@   loop 1 invariant fresh(commodities) && commodities != nil
+//
+//@ func (Amounts).CommoditiesSorted
+//@   ensures fresh(result)
